@@ -44,6 +44,10 @@ def spec_for(fid):
         return (lambda: Formula("b ~ 0 + C(A, contr.sum) | C(A, contr.sum) + a")), {"lhs": 0, "rhs": (1, 2)}
     if fid == 14:
         return (lambda: Formula("C(A, contr.helmert) | 0 + C(A, contr.helmert) + C(A, contr.helmert):b")), {"root": (0, 1)}
+    if fid == 15:
+        return (lambda: Formula("b ~ A + A:a | a + A:a")), {"lhs": 0, "rhs": (1, 2)}
+    if fid == 16:
+        return (lambda: Formula("a + A:a | 0 + A:a | A + A:a")), {"root": (0, 1, 2)}
     raise ValueError(fid)
 
 
